@@ -180,7 +180,8 @@ Proof.
     + rewrite flat_map_app, Eout, Efl. reflexivity.
 Qed.
 
-Theorem astype_blocks_refines (t : tb) (k : ckey) : wf_tb t -> t <> [] -> walk_dom k = true ->
+Theorem astype_blocks_refines (t : tb) (k : ckey) : wf_tb t -> t <> [] ->
+  walk_dom k (Z.of_nat (length (flatten t))) = true ->
   forall ps, key_positions k (Z.of_nat (length (flatten t))) = Ok ps ->
   res_map flatten (M_astype_blocks dt conv int_key t k) = S_astype_columns (flatten t) k dt conv.
 Proof.
